@@ -75,7 +75,7 @@ def flushed_of(calls, work_obs):
     n = 0
     for c in calls:
         a = c["args"].replace("//", "/")
-        if c["sys"] in ("openat", "open") and work_obs in a and "O_RDONLY" not in a and "O_TRUNC" not in a:
+        if c["sys"] in ("openat", "open") and work_obs in a and "O_RDONLY" not in a:
             fd = c["ret"]
         elif c["sys"] == "write" and fd is not None and a.startswith("%d," % fd):
             if c["ret"] and c["ret"] > 0:
